@@ -8,6 +8,8 @@ a failing schedule, never as evidence of absence.
 import WrglModel.Model.Pool
 import WrglModel.Model.PBar
 import WrglModel.Lemmas.C16
+import WrglModel.Model.Pipe
+import WrglModel.Lemmas.C16Pipe
 import WrglModel.Gen.Facts
 namespace Wrgl
 
@@ -44,6 +46,59 @@ theorem C16_lost_update_witness :
     let p := (Pool.init blocks 2).run false [0, 1, 0, 1, 0, 1, 0, 1, 0, 1, 0, 1]
     p.finished = true ∧ (p.rc ≠ 262 ∨ p.blocks.length ≠ 2) :=
   pool_unguarded_lost_update
+
+/-! ### histories: several ingests in a row on one sorter (Model/Pipe.lean)
+
+Between two calls the sorter belongs to the caller, who empties it and loads the next table
+(`Reset()`, `SortFile`/`AddRow` — doctor's resolver, `ReingestTable`, a retry after a store error).
+The producer goroutine of a call reads that very state. So a call has to be over when it returns. -/
+
+/-- The coordinator that waits for all its workers (`wg.Wait()` in `ingestTableFromBlocks`): when the
+    call returns — with a table or with the error of a failed worker — and at least one worker left
+    by seeing the channel closed (every worker that does not fail leaves that way), the whole
+    pipeline is at rest: whatever the caller loads into the sorter next stays untouched under every
+    further schedule of the old goroutines, for any fault position and any schedule so far. -/
+theorem C16_ingest_is_over_when_it_returns (n bs cap nw : Nat) (f : Option Nat) (s : List Nat)
+    (hret : ((Pipe.init n bs cap nw).run f s).mayReturn true = true)
+    (hdone : ((Pipe.init n bs cap nw).run f s).anyDone = true)
+    (m : Nat) (f' : Option Nat) (s' : List Nat) :
+    ((((Pipe.init n bs cap nw).run f s).ret.reload m).run f' s') =
+      ((Pipe.init n bs cap nw).run f s).ret.reload m ∧
+    ((((Pipe.init n bs cap nw).run f s).ret.reload m).run f' s').src = m := by
+  have hl : ((Pipe.init n bs cap nw).run f s).allLeft = true := by
+    simpa [Pipe.mayReturn] using hret
+  have hq := pipe_rest_at_return n bs cap nw f s hl hdone
+  have hq' : (((Pipe.init n bs cap nw).run f s).ret.reload m).quiescent = true := hq
+  have := quiescent_run f' s' _ hq'
+  exact ⟨this, by rw [this]; rfl⟩
+
+/-- Without a fault every schedule that lets all workers leave has counted every row of the sorter,
+    has emptied it, and is at rest: the attempt's table does not depend on the schedule. -/
+theorem C16_pipeline_counts_every_row (n bs cap nw : Nat) (hnw : 0 < nw) (s : List Nat)
+    (hl : ((Pipe.init n bs cap nw).run none s).allLeft = true) :
+    ((Pipe.init n bs cap nw).run none s).rows = n ∧ ((Pipe.init n bs cap nw).run none s).src = 0 ∧
+    ((Pipe.init n bs cap nw).run none s).quiescent = true :=
+  pipe_complete n bs cap nw hnw s hl
+
+/-- A coordinator that returns at the first reported error instead: two workers, five blocks, a
+    channel of one. Worker 0's save fails while worker 1 is inside its save and the producer is
+    blocked in a send. The call may return under that discipline (not under `wg.Wait()`); the caller
+    loads 510 rows; the left-over worker finishes and receives, the producer's send goes through,
+    it builds one more block — out of the caller's rows — before it looks at its context: 255 of the
+    510 rows of the next table are gone. -/
+theorem C16_early_return_witness :
+    let p := (Pipe.init (5 * 255) 255 1 2).run (some 0) [2, 0, 2, 1, 2, 2, 0]
+    p.mayReturn false = true ∧ p.mayReturn true = false ∧
+    ((p.ret.reload 510).run (some 0) [1, 1, 2, 2]).src = 255 := by decide
+
+/-- The premise "some worker saw the channel closed" of `C16_ingest_is_over_when_it_returns` cannot
+    be dropped: when the only worker fails, `wg.Wait()` returns while the producer is still in its
+    loop; it finishes the block it is building — from whatever the sorter holds by then — before it
+    looks at its context. -/
+theorem C16_sole_worker_failure_witness :
+    let p := (Pipe.init (3 * 255) 255 10 1).run (some 0) [1, 0, 0]
+    p.mayReturn true = true ∧ p.anyDone = false ∧
+    ((p.ret.reload 510).run (some 0) [1]).src = 255 := by decide
 
 theorem C16_fact_mergeErrChan : Facts.mergeErrChanHoldsAllDiffers = true := by decide
 
